@@ -49,7 +49,7 @@ func NewSorts() *Sorts {
 		"(declare-datatypes ((Err 0)) (((enil) (emk (emk_id Int)))))",
 		"(declare-datatypes ((Iface 0)) (((inil) (iobj (iobj_tag Int) (iobj_id Int)))))",
 		"(declare-datatypes ((Unit 0)) (((unit))))",
-		"(declare-datatypes ((Event 0)) (((mk_ev (ev_tag Int) (ev_recv Iface) (ev_s1 String) (ev_s2 String) (ev_s3 String) (ev_err Err) (ev_arg Int) (ev_ptr Int) (ev_b1 Bool) (ev_from Int)))))",
+		"(declare-datatypes ((Event 0)) (((mk_ev (ev_tag Int) (ev_recv Iface) (ev_s1 String) (ev_s2 String) (ev_s3 String) (ev_err Err) (ev_arg Int) (ev_ptr Int) (ev_b1 Bool) (ev_from Int) (ev_i1 Int)))))",
 	)
 	s.done["Any"], s.done["Err"], s.done["Iface"], s.done["Unit"] = true, true, true, true
 	return s
